@@ -65,7 +65,8 @@ def build(spec):
         return NaiveForecaster(strategy=spec[1], sp=spec[2] if len(spec) > 2 else 1,
                                window_length=spec[3] if len(spec) > 3 else None)
     if k == "poly":
-        return PolynomialTrendForecaster(degree=spec[1])
+        return PolynomialTrendForecaster(degree=spec[1],
+                                         with_intercept=spec[2] if len(spec) > 2 else True)
     if k == "es":
         return ExponentialSmoothing(trend=spec[1] if len(spec) > 1 else None)
     if k == "ets":
@@ -135,6 +136,7 @@ def is_slow(spec):
 BASIC = [
     ["naive", "last"], ["naive", "mean"], ["naive", "drift"], ["naive", "last", 3],
     ["naive", "mean", 3, 6], ["naive", "mean", 1, 4], ["poly", 1], ["poly", 2],
+    ["poly", 2, False], ["poly", 3, False],
     ["red", "recursive", 3, "lin"], ["red", "direct", 3, "lin"],
     ["red", "multioutput", 2, "lin"], ["red", "dirrec", 2, "lin"],
 ]
